@@ -533,3 +533,48 @@ def _(c):
         first = next(iter(orb.iter(start=target, stop=target + timedelta(seconds=600), step=timedelta(seconds=60))))
         c.ensure("iteration_from_that_date_starts_there", abs((first.date - target).total_seconds()) < 1e-6
                  and bool(np.linalg.norm(np.asarray(first[:3], dtype=float) - np.asarray(got[:3], dtype=float)) <= 2e-2))
+
+
+# ---------------------------------------------------------------------------------------------
+# the tolerance is the orbit's: a copy of the orbit, and the orbit a propagation returns, integrate with it
+# ---------------------------------------------------------------------------------------------
+
+def _grid_tolkept(tier, rng):
+    """adaptive methods {rkf54, dopri54} x tolerances {1e-6, 1e-9} (other than the default 1e-3) x orbits {iss, gto} x requested step {60, 120} s"""
+    for m in (0, 1):
+        for tol in (1e-6, 1e-9):
+            for o in (0, 1):
+                yield {"method": m, "tol": tol, "orbit": o, "step": (60.0, 120.0)[(m + o) % 2]}
+
+
+@contract("C06", "tolerance_kept", funcs=[f"{KNC}.copy", f"{KNC}._make_step", "beyond.propagators.base:NumericalPropagator.propagate"], grid=_grid_tolkept, level="bounded")
+def _(c):
+    """bounded: with a tolerance other than the default, (i) a copy of the orbit propagates to exactly the state the orbit itself propagates to, (ii) the request split in two
+    -- propagate to a third of the span, then propagate the RETURNED orbit to the end -- stays within the adaptive bound of the direct request (a small multiple of the
+    tolerance per step: 5 x tol x number of steps, + 15 mm: two paths of a few hundred steps whose dates are held to the microsecond differ by millimetres), and (iii) the orbits handed back integrate with the tolerance given (each adaptive step of theirs within 5 x tol)"""
+    from contracts import twobody
+    from beyond.dates import timedelta
+    method = ["rkf54", "dopri54"][c.integer("method")]
+    kind = ["iss", "gto"][c.integer("orbit")]
+    tol, st = c.real("tol"), c.real("step")
+    orb, r0, v0, d0, T, mu = _orbit(kind, method, st, tol)
+    span = 1.5 * T if kind == "iss" else 0.4 * T
+    end = d0 + timedelta(seconds=span)
+    direct = np.asarray(orb.propagate(end), dtype=float)
+    cp = np.asarray(orb.copy().propagate(end), dtype=float)
+    c.ensure("a_copy_propagates_to_the_same_state", bool(np.array_equal(cp, direct)))
+    mid = orb.propagate(d0 + timedelta(seconds=span / 3))
+    chained = np.asarray(mid.propagate(end), dtype=float)
+    nsteps = span / st * 3      # (rejected steps shrink the step: allow three times the nominal count)
+    c.ensure("split_request_within_the_adaptive_bound", bool(np.linalg.norm(chained[:3] - direct[:3]) <= 5 * tol * nsteps + 15e-3))
+    # the returned orbit's own steps
+    p2 = mid.propagator
+    p2.orbit = mid
+    y = p2.orbit
+    worst = 0.0
+    for _ in range(20):
+        step, y1 = p2._make_step(y, p2.step)
+        rr, vv = twobody.propagate(np.asarray(y[:3], dtype=float), np.asarray(y[3:], dtype=float), step.total_seconds(), mu)
+        worst = max(worst, float(np.linalg.norm(np.asarray(y1[:3], dtype=float) - rr)))
+        y = y1
+    c.ensure("returned_orbit_steps_within_5_tol", worst <= 5 * tol)
